@@ -266,6 +266,11 @@ pub fn eval(sc0: &Scenario) -> CaseResult {
     r
 }
 
+/// the valid three-frame payload a stale session's first input packet carries on the link from -> to
+pub fn stale_first_packet(sc: &Scenario, from: u8, to: u8) -> Vec<u8> {
+    payload_frames(3, frame_size(sc, from, to), 3)
+}
+
 fn garbage() -> BoxedStrategy<Vec<u8>> {
     prop_oneof![
         3 => proptest::collection::vec(any::<u8>(), 0..12),
